@@ -183,6 +183,25 @@ func theoryAxioms(roots []*Term) []*Term {
 	}
 	work := append([]*Term{}, roots...)
 	emptyLit := StrLit("")
+	var sbytesTerms []*Term
+	var ssubTerms, scatTerms []*Term
+	pairDone := map[[2]*Term]bool{}
+	pairAxioms := func() {
+		for _, u := range ssubTerms {
+			for _, c := range scatTerms {
+				k := [2]*Term{u, c}
+				if pairDone[k] || u.Args[0] == c {
+					continue
+				}
+				pairDone[k] = true
+				a, b := c.Args[0], c.Args[1]
+				lo, hi := u.Args[1], u.Args[2]
+				same := Eq(u.Args[0], c)
+				emit(Implies(And(same, Eq(lo, IntLit(0)), Eq(hi, SLen(a))), Eq(u, a)))
+				emit(Implies(And(same, Eq(lo, SLen(a)), Eq(hi, Add(SLen(a), SLen(b)))), Eq(u, b)))
+			}
+		}
+	}
 	for round := 0; round < 4 && len(work) > 0; round++ {
 		var next []*Term
 		before := len(out)
@@ -201,6 +220,11 @@ func theoryAxioms(roots []*Term) []*Term {
 			if t.Sort == SStr {
 				l := SLen(t)
 				emit(Ge(l, IntLit(0)))
+				// the folded length, stated for the solver's own slen terms (quantifier instances)
+				raw := TC.mk(KApp, declStr("slen", []Sort{SStr}, SInt), SInt, []*Term{t}, nil, nil)
+				if raw != l {
+					emit(Eq(raw, l))
+				}
 				if _, isLit := litValue(t); !isLit {
 					emit(Implies(Eq(l, IntLit(0)), Eq(t, emptyLit)))
 				}
@@ -235,6 +259,7 @@ func theoryAxioms(roots []*Term) []*Term {
 					}
 				}
 			case "ssub":
+				ssubTerms = append(ssubTerms, t)
 				s0, lo, hi := t.Args[0], t.Args[1], t.Args[2]
 				if s0.Kind == KApp && s0.Op == "scat" {
 					a, b := s0.Args[0], s0.Args[1]
@@ -242,6 +267,20 @@ func theoryAxioms(roots []*Term) []*Term {
 					emit(Implies(And(Eq(lo, SLen(a)), Eq(hi, Add(SLen(a), SLen(b)))), Eq(t, b)))
 				}
 				emit(Implies(And(Eq(lo, IntLit(0)), Eq(hi, SLen(s0))), Eq(t, s0)))
+			case "sbytes":
+				// sub-range relation between byte-string views of the same array state
+				for _, o := range sbytesTerms {
+					if o.Args[0] != t.Args[0] || o == t {
+						continue
+					}
+					for _, pr := range [][2]*Term{{o, t}, {t, o}} {
+						big, small := pr[0], pr[1]
+						o1, n1, o2, n2 := big.Args[1], big.Args[2], small.Args[1], small.Args[2]
+						emit(Implies(And(Le(o1, o2), Le(Add(o2, n2), Add(o1, n1)), Le(IntLit(0), n2)),
+							Eq(small, SSub(big, Sub(o2, o1), Add(Sub(o2, o1), n2)))))
+					}
+				}
+				sbytesTerms = append(sbytesTerms, t)
 			case "sbyte":
 				emit(Eq(SAt(t, IntLit(0)), t.Args[0]))
 			case "srune":
@@ -253,9 +292,11 @@ func theoryAxioms(roots []*Term) []*Term {
 				emit(Implies(Or(Lt(r, IntLit(0)), Ge(r, IntLit(2048))), Ge(l, IntLit(3))))
 			case "scat":
 				// first/last characters are commonly needed
+				scatTerms = append(scatTerms, t)
 				a, b := t.Args[0], t.Args[1]
-				_ = a
-				_ = b
+				emit(Implies(Eq(a, emptyLit), Eq(t, b)))
+				emit(Implies(Eq(b, emptyLit), Eq(t, a)))
+				emit(Eq(TC.mk(KApp, declStr("slen", []Sort{SStr}, SInt), SInt, []*Term{t}, nil, nil), Add(SLen(a), SLen(b))))
 			case "shasprefix":
 				s, p := t.Args[0], t.Args[1]
 				emit(Eq(t, And(Le(SLen(p), SLen(s)), Eq(SSub(s, IntLit(0), SLen(p)), p))))
@@ -281,6 +322,7 @@ func theoryAxioms(roots []*Term) []*Term {
 		for _, r := range work {
 			visit(r)
 		}
+		pairAxioms()
 		next = append(next, out[before:]...)
 		work = next
 	}
